@@ -64,7 +64,9 @@ def declare(w):
     w.add(Contract(f"{GB}:Channel.receive", {"self": REF("Channel"), "timeout": OPT(INT)}, defaults={"timeout": None}, modifies=lambda a, h: [("Channel", a.self, "$inbox"), ("Channel", a.self, "$nrecv")],
                    cases=[Case("item", restype=ANY, post=lambda a, h, h2, r: [nrecv(h2, a.self) == nrecv(h, a.self) + 1]),
                           Case("eof", "raise", "EOFError", post=lambda a, h, h2, e: [nrecv(h2, a.self) == nrecv(h, a.self)]),
-                          Case("remote-error", "raise", "RemoteError", post=lambda a, h, h2, e: [nrecv(h2, a.self) == nrecv(h, a.self)])], trusted=True,
+                          Case("remote-error", "raise", "RemoteError", post=lambda a, h, h2, e: [nrecv(h2, a.self) == nrecv(h, a.self)]),
+                          # with a timeout the wait may give up (channel.TimeoutError is an OSError subclass of its own): only then
+                          Case("timeout", "raise", "TimeoutError", when=lambda a, h: z3.Not(a.sv("timeout").v[0]), post=lambda a, h, h2, e: [nrecv(h2, a.self) == nrecv(h, a.self)])], trusted=True,
                    note="C02/C03; without a timeout it blocks until the peer answers (unbounded)"))
 
     # ---- the IO contract, with ProxyIO's view: the bytes the forwarder wrote to the master file ---------------------------
@@ -100,7 +102,8 @@ def declare(w):
 
     CTLMOD = lambda a, h: [("Channel", h("ProxyIO", a.self, "controlchan"), f) for f in ("$sent", "$inbox", "$nrecv")]
     HASCTL = lambda a, h: [("has-control-channel", h("ProxyIO", a.self, "controlchan") != 0)]
-    failing = [Case("connection-lost", "raise", "EOFError"), Case("via-gateway-broken", "raise", "OSError"), Case("via-error", "raise", "RemoteError")]
+    # a control request waits for its answer as patiently as a direct wait()/kill() would (no TimeoutError: giving up early hands the late answer to the NEXT request)
+    failing = [Case("connection-lost", "raise", "EOFError"), Case("via-gateway-broken", "raise", "OSError", excluding=("TimeoutError",)), Case("via-error", "raise", "RemoteError")]
     w.add(Contract(f"{GIO}:ProxyIO._controll", {"self": REF("ProxyIO"), "event": INT}, requires=HASCTL, modifies=CTLMOD,
                    cases=[Case("ok", restype=ANY, post=lambda a, h, h2, r: [sent(h2, h("ProxyIO", a.self, "controlchan")) == z3.Concat(sent(h, h("ProxyIO", a.self, "controlchan")), z3.Unit(i2u(a.event))),
                                                                             nrecv(h2, h("ProxyIO", a.self, "controlchan")) == nrecv(h, h("ProxyIO", a.self, "controlchan")) + 1])] + failing,
@@ -112,6 +115,14 @@ def declare(w):
     # the IO contract says close_read does not raise
     w.add(Contract(f"{GIO}:ProxyIO.close_read", {"self": REF("ProxyIO")}, cases=[Case("ok")], props=["C16", "C04"], note="IO contract: close_read()/close_write() do not raise (the receiver thread's epilogue calls both)"))
 
+    def co_timeout(val, ty):
+        # a float timeout where the contract says int: only "given or not" matters to the contracts here
+        if val.ty.kind == "float" and ty in (INT, OPT(INT)):
+            return core.coerce(core.fresh(INT, "seconds"), ty)
+        return None
+
+    co_timeout.__name__ = "co_timeout"
+    core.COERCE_HOOKS[:] = [h_ for h_ in core.COERCE_HOOKS if getattr(h_, "__name__", "") != "co_timeout"] + [co_timeout]
     is_int_item = z3.Function("is_int_item", U, z3.BoolSort())
     w.call_hooks[("isinstance", "any")] = lambda ex, v, names: is_int_item(v.v) if names == ["int"] else (_ for _ in ()).throw(Unsupported(f"isinstance of an item against {names}"))
     w.call_hooks[("eq", "any")] = None
